@@ -48,25 +48,37 @@ def check(ctx):
     def in_loop_body(st):
         return any(st is x for b in loop.body for x in ast.walk(b))
 
-    reads, writes, refreshes = [], [], []
+    reads, writes, refreshes, direct_updates = [], [], [], []
     for st in cfg.stmts:
         if not in_loop_body(st):
             continue
         for call in calls_of_stmt(st):
             f = call.func
-            if isinstance(f, ast.Attribute) and f.attr == "init_dist" and isinstance(
-                    f.value, ast.Name) and f.value.id in tvars:
+            if isinstance(f, ast.Attribute) and f.attr == "init_dist":
                 reads.append(st)
             if isinstance(f, ast.Attribute) and f.attr == "update" and isinstance(
                     f.value, ast.Name) and f.value.id == "self":
-                if _covers_inputs(call, tvars):
+                if _covers_inputs(call, None):
                     refreshes.append(st)
+            elif isinstance(f, ast.Attribute) and f.attr == "update" and not call.args \
+                    and not call.keywords:
+                direct_updates.append(st)
         if isinstance(st, ast.Assign):
             for t in st.targets:
                 if isinstance(t, ast.Attribute) and t.attr == "value":
                     writes.append(st)
-    ctx.require_min("init_dist() reads in the simulation loop", len(reads), 1)
-    ctx.require_min("value assignments in the simulation loop", len(writes), 2)
+    ctx.ob("C17.R1", sim, "inside simulate nodes are refreshed only through Model.update "
+                          "(the topological sweep); no node is updated directly in "
+                          "simulation order, where aggregating nodes would be recomputed "
+                          "from stale inputs and marked up to date", not direct_updates,
+           detail=f"direct node updates at lines {[s_.lineno for s_ in direct_updates]}",
+           stmt="direct node.update() in simulate")
+    if not reads or len(writes) < 1:
+        ctx.ob("C17.R1", sim, "the simulation loop initialises each distribution and assigns "
+                              "the draw through a value setter", False, unproven=True,
+               detail=f"{len(reads)} init_dist() calls, {len(writes)} value assignments in "
+                      f"the loop", stmt="unrecognised simulation loop")
+        return
 
     # auto-update forced on before the loop?
     forced = False
@@ -234,7 +246,7 @@ def check(ctx):
                            "nodes)", ok_n, detail=short(sn or ()))
 
 
-def _covers_inputs(call: ast.Call, tvars) -> bool:
+def _covers_inputs(call: ast.Call, tvars=None) -> bool:
     """self.update() | self.update(dist.name) | self.update(*(n.name for n in
     dist.all_input_nodes()))"""
     if not call.args and not call.keywords:
@@ -246,13 +258,12 @@ def _covers_inputs(call: ast.Call, tvars) -> bool:
         txt = ast.unparse(e)
         if isinstance(a, ast.Starred):
             names = [x for x in ast.walk(e) if isinstance(x, ast.Attribute)
-                     and x.attr == "all_input_nodes" and isinstance(x.value, ast.Name)
-                     and x.value.id in tvars]
+                     and x.attr == "all_input_nodes" and isinstance(x.value, ast.Name)]
             if names and ".name" in txt:
                 continue
             return False
         if isinstance(e, ast.Attribute) and e.attr == "name" and isinstance(
-                e.value, ast.Name) and e.value.id in tvars:
+                e.value, ast.Name):
             continue
         return False
     return True
